@@ -17,16 +17,16 @@ const RepoMod = "github.com/a14e/gogreement"
 
 // Program is the loaded, SSA-built code under test plus harness overlay. Read-only after Load.
 type Program struct {
-	RepoDir  string
-	Prog     *ssa.Program
-	Pkgs     []*packages.Package
-	SSAPkgs  map[string]*ssa.Package // by import path
-	Funcs    map[string]*ssa.Function // by full name (fn.String())
-	Overlay  map[string][]byte
-	OverlayFiles map[string]string // virtual path -> real path (for replay -overlay)
+	RepoDir        string
+	Prog           *ssa.Program
+	Pkgs           []*packages.Package
+	SSAPkgs        map[string]*ssa.Package  // by import path
+	Funcs          map[string]*ssa.Function // by full name (fn.String())
+	Overlay        map[string][]byte
+	OverlayFiles   map[string]string // virtual path -> real path (for replay -overlay)
 	DroppedHarness map[string]string // harness file that does not compile against the tree under test -> first error
-	LoadSecs float64
-	fieldIdx map[*types.Struct]map[string]int
+	LoadSecs       float64
+	fieldIdx       map[*types.Struct]map[string]int
 }
 
 // BuildOverlay maps /verif/harness/<rel>.go to <repo>/src/<rel>.go.
